@@ -1,8 +1,10 @@
 (* C02 - static types describe runtime values.
-   Only statements here; proofs in Proofs/C02_Types.v; the model in Model/C02_Types.v. *)
+   Only statements here; proofs in Proofs/C02_Types.v, C02_Classes.v, C02_Iface.v, C02_IfaceRec.v; the models in
+   Model/C02_Types.v (core), C02_Classes.v (class narrowing), C02_Iface.v (generic classes, implicit
+   interfaces), C02_IfaceRec.v (recursion guard for self-referential interfaces). *)
 From Coq Require Import ZArith List Bool.
 From Elk Require Import Model.C02_Types Proofs.C02_Types Model.C02_Classes Proofs.C02_Classes.
-From Elk Require Import Model.C02_Iface Proofs.C02_Iface.
+From Elk Require Import Model.C02_Iface Proofs.C02_Iface Model.C02_IfaceRec Proofs.C02_IfaceRec.
 Import ListNotations.
 Open Scope Z_scope.
 
@@ -326,3 +328,50 @@ Example C02_iface_nonvacuous :
   gmem_b ct_demo it_demo (GI 1 (BAtom AStr)) (VO 1 (AInt, 41)) = false /\
   gcall ct_demo 1 (AInt, 41) 0 None = Some (AInt, 41).
 Proof. vm_compute. repeat split; reflexivity. Qed.
+
+(* ================================================================================================
+   Self-referential interfaces (Model/C02_IfaceRec.v): interface I[T] { ...; def rec: I[t0] },
+   class K[T] { ...; def rec: K[s0] then K::[s0](lit) }.  While K[s] <: I[t] is being established the
+   checker answers every nested question between the same two NAMESPACES with true (typesAreIdentical
+   ignores type arguments), so K[s0] <: I[t0] is never looked at.  The rule AS FOUND is refuted:
+       interface I[T]  def m0: T; end  def rec: I[String]; end  end
+       class K[T]      def m0: T then @item   def rec: K[Int] then K::[Int](7)  end
+   K[Int] <: I[Int] is accepted, `s.rec.m0` has static type String and evaluates to the Int 7
+   (reproduced on the binary; known finding ifc-rec:...). *)
+Definition rec_witness : rtab :=
+  {| r_cls := 1; r_ifc := 1; r_cm := [(0, ((None, BVar), BdItem))]; r_im := [(0, (None, BVar))];
+     r_s0 := BAtom AInt; r_t0 := BAtom AStr; r_lit := (AInt, 7) |}.
+
+Theorem C02_iface_rec_guard_refuted : exists R s t m R0 r,
+  rtab_ok R = true /\ rsub false R s t = true /\ In (m, (None, R0)) (r_im R) /\
+  rcall R m None = Some r /\ bmem (bat [] (r_t0 R)) R0 r = false.
+Proof.
+  exists rec_witness, (BAtom AInt), (BAtom AInt), 0, BVar, (AInt, 7).
+  vm_compute. repeat split; try reflexivity. left; reflexivity.
+Qed.
+Print Assumptions C02_iface_rec_guard_refuted.
+
+(* The rule as found is sound exactly when the nested instantiation itself conforms (in particular when
+   `rec` mentions the SAME arguments, `def rec: I[T]` / `def rec: K[T]`, the case the guard was written
+   for); with the nested pair compared once with its own arguments (rsub true) no guard is needed. *)
+Theorem C02_iface_rec_guard_partial : forall R s t m p R0 arg,
+  isub (r_ct R) (r_it R) (GC (r_cls R) (r_s0 R)) (GI (r_ifc R) (r_t0 R)) = true ->
+  rtab_ok R = true -> rsub false R s t = true ->
+  In (m, (p, R0)) (r_im R) -> arg_fits (bat [] (r_t0 R)) p arg ->
+  exists r, rcall R m arg = Some r /\ bmem (bat [] (r_t0 R)) R0 r = true.
+Proof. intros R s t m p R0 arg Hn Hok _ Hin Ha. eapply rec_nested_sound; eauto. Qed.
+Print Assumptions C02_iface_rec_guard_partial.
+
+Theorem C02_iface_rec_fixed_sound : forall R s t m p R0 arg,
+  rtab_ok R = true -> rsub true R s t = true ->
+  In (m, (p, R0)) (r_im R) -> arg_fits (bat [] (r_t0 R)) p arg ->
+  exists r, rcall R m arg = Some r /\ bmem (bat [] (r_t0 R)) R0 r = true.
+Proof. exact rsub_fixed_sound. Qed.
+Print Assumptions C02_iface_rec_fixed_sound.
+
+Example C02_iface_rec_nonvacuous :
+  rsub true rec_witness (BAtom AInt) (BAtom AInt) = false /\
+  rsub true {| r_cls := 1; r_ifc := 1; r_cm := r_cm rec_witness; r_im := r_im rec_witness;
+               r_s0 := BAtom AInt; r_t0 := BOr (BAtom AInt) (BAtom AStr); r_lit := (AInt, 7) |}
+       (BAtom AStr) (BAtom AStr) = true.
+Proof. vm_compute. split; reflexivity. Qed.
